@@ -271,7 +271,7 @@ func UploadPack(
 		var newView, clientView []plumbing.Hash
 		newView, err = objectsToUpload(&shallowBoundaryStorer{Storer: st, boundary: upreq.Shallows}, wants, nil)
 		if err == nil {
-			clientView, err = objectsToUpload(&shallowBoundaryStorer{Storer: st, boundary: upreq.Shallows}, haves, nil)
+			clientView, err = objectsToUpload(&shallowBoundaryStorer{Storer: st, boundary: upreq.Shallows}, presentObjects(st, haves), nil)
 		}
 		objs = hashDifference(newView, clientView)
 	} else {
@@ -814,7 +814,7 @@ func serveFetchV2(_ context.Context, st storage.Storer, w io.WriteCloser, args *
 			_ = w.Close()
 			return true, fmt.Errorf("getting objects to upload: %w", nerr)
 		}
-		clientView, cerr := objectsToUpload(&shallowBoundaryStorer{Storer: st, boundary: clientShallows}, haves, nil)
+		clientView, cerr := objectsToUpload(&shallowBoundaryStorer{Storer: st, boundary: clientShallows}, presentObjects(st, haves), nil)
 		if cerr != nil {
 			_ = w.Close()
 			return true, fmt.Errorf("getting client objects: %w", cerr)
@@ -881,6 +881,20 @@ func serveFetchV2(_ context.Context, st storage.Storer, w io.WriteCloser, args *
 	}
 
 	return true, w.Close()
+}
+
+// presentObjects returns the hashes in hs that st has. A client's haves may
+// name objects the server has never seen (commits of the client's own); they
+// say nothing about what to leave out of the pack and, unlike revlist's haves,
+// cannot be handed to an object walk as starting points.
+func presentObjects(st storage.Storer, hs []plumbing.Hash) []plumbing.Hash {
+	out := make([]plumbing.Hash, 0, len(hs))
+	for _, h := range hs {
+		if st.HasEncodedObject(h) == nil {
+			out = append(out, h)
+		}
+	}
+	return out
 }
 
 // hashDifference returns the elements of a that are not in b, preserving a's
